@@ -63,9 +63,9 @@ def gen_envelope(rng, big):
     """A point of the property's quantifier."""
     while True:
         if big:
-            nxseg = int(rng.choice([1024, 1536, 2048, 3000, 4096, 6000, 8192]))
+            nxseg = int(rng.choice([1024, 1025, 1536, 2000, 2048, 3000, 4000, 4096, 6000, 8000, 8192]))
         else:
-            nxseg = int(rng.choice([1024, 1536, 2048, 2600, 4096]))
+            nxseg = int(rng.choice([1024, 1536, 2000, 2048, 2600, 4000, 4096]))
         fs = float(rng.choice([1.0, 12.5, 50.0, 100.0, 256.0, 1000.0, 4096.0]))
         fn_r = float(rng.uniform(0.04, 0.25))
         xi = float(rng.uniform(0.02, 0.05))
@@ -81,6 +81,35 @@ def gen_envelope(rng, big):
                 DF2=float(bw * rng.choice([4.0, 4.5, 6.0, 10.0, 20.0, 40.0])), DF1=float(bw * rng.choice([0.5, 1.0, 2.0])),
                 sel=float(fn + bw * rng.uniform(-0.45, 0.45)),
                 c=float(rng.choice([2.0 ** int(rng.integers(-40, 41)), 10.0 ** rng.uniform(-12, 12), 3.0, 1e-3, 7e5])))
+
+
+CORNER_NXSEG = (2000, 4000, 6000, 8000, 1025, 3000)
+
+
+def corner_points(thorough):
+    """Deterministic corners of the envelope: segment lengths that are not powers of two (just under one, odd, 3*2^k*..)
+    x natural frequency at the upper end (0.19-0.25 fs: fewest correlation samples per period) and at the lower end
+    (0.04-0.06 fs, or the lowest value the resolution clauses allow) x damping at both ends (2 %, 5 %)."""
+    highs = (0.22, 0.23, 0.19, 0.245, 0.25, 0.205)
+    lows = (0.04, 0.045, 0.05, 0.06, 0.0586, 0.042)
+    fss = (100.0, 1.0, 50.0, 1000.0, 12.5, 256.0)
+    shapes = ([1.0, -0.5, 0.25], [0.5, 1.0], [0.25, -1.0, 0.75, 0.5], [1.0, 0.875, -0.375, 0.125, 0.625, -0.75], [-1.0, 0.5, 0.5], [0.75, 1.0, -0.25, 0.5, 0.125])
+    out = []
+    for i, nxseg in enumerate(CORNER_NXSEG):
+        for j, xi in enumerate((0.02, 0.05)):
+            fmin = max(0.04, 60.4 / nxseg, 4.02 / (2 * xi * nxseg))
+            ends = [("high", highs[(i + j) % 6]), ("low", max(lows[(i + 3 * j) % 6], fmin))]
+            if thorough:
+                ends += [("high", highs[(i + j + 2) % 6]), ("high", highs[(i + j + 4) % 6]), ("low", max(lows[(i + 3 * j + 1) % 6], fmin))]
+            for e, (end, fn_r) in enumerate(ends):
+                fs = fss[(i + j + e) % 6]
+                fn = fn_r * fs
+                bw = 2 * xi * fn
+                out.append(dict(kind="envelope-corner", end=end, fs=fs, nxseg=nxseg, fn=fn, xi=xi, phi=shapes[(i + e) % 6],
+                                eps_rel=(1e-10, 1e-8, 1e-12)[(i + j + e) % 3], gain=(1.0, 1e-6, 1e5)[(i + e) % 3],
+                                DF2=bw * (4.0, 10.0, 6.0)[(i + j + e) % 3], DF1=bw, sel=fn + bw * (0.3, -0.4, 0.1)[(i + e) % 3],
+                                c=(1000.0, 2.0 ** -20, 3.0)[(j + e) % 3], scale_test=bool(thorough or (i + j + e) % 4 == 0)))
+    return out
 
 
 def oracle_case(ctx, spec, methods=("EFDD", "FSDD")):
@@ -111,6 +140,8 @@ def oracle_case(ctx, spec, methods=("EFDD", "FSDD")):
         if not (exi <= 0.15):
             ctx.fail("oracle", "%s: damping ratio %.5g vs true %.5g (error %.1f %% > 15 %%)" % (method, Xi, xi, 100 * exi), case, key="C07:%s:xi" % method)
         # positive scaling of the whole spectral matrix
+        if not spec.get("scale_test", True):
+            continue
         c = spec["c"]
         try:
             Fn2, Xi2, Phi2, _ = fdd.EFDD_mpe(c * Sy, f, dt, [spec["sel"]], "per", method=method, DF1=spec["DF1"], DF2=spec["DF2"])
@@ -507,6 +538,10 @@ def run(ctx):
     for path in sorted(glob.glob(os.path.join(VERIF, "corpus", "C07", "*.json"))):
         spec = json.load(open(path))
         oracle_case(ctx, spec, methods=tuple(spec.get("methods", ("EFDD", "FSDD"))))
+    # ---- deterministic corners of the envelope (both tiers)
+    for spec in corner_points(not ctx.quick()):
+        ctx.hist("oracle corner", (spec["nxseg"], spec["end"], spec["xi"]))
+        oracle_case(ctx, spec)
     # ---- oracle sweep over the envelope
     for k in range(ctx.n(14, 200)):
         oracle_case(ctx, gen_envelope(rng, big=not ctx.quick() or k % 7 == 0))
